@@ -146,10 +146,17 @@ RET_CAT_KINDS = _by_cat([k for k in KIND_NAMES if k != 'GError**'])
 HEAVY = ('error', 'foreign', 'foreignptr', 'basicpp')
 
 
+STEPS = (1, 2, 3, 5, 7, 11)
+
+
 @st.composite
-def _kind(draw, table):
+def _kind(draw, table, seq):
+    """Type kinds are walked cyclically from a per-case random offset with a per-case random stride, so that every kind
+    gets the same share of values whatever clumping the example generator applies; the spelling within a kind is free."""
     cats = list(table) + [c for c in HEAVY if c in table]
-    return draw(st.sampled_from(table[draw(st.sampled_from(cats))]))
+    seq['i'] += 1
+    cat = cats[(seq['o'] + seq['i'] * seq['step']) % len(cats)]
+    return draw(st.sampled_from(table[cat]))
 
 
 def cat_of(kind):
@@ -426,6 +433,7 @@ def effective_dirs(c):
             if t is None or t == vid:
                 continue
             owners[t].append((vid, pre[(vid, k)][0] == AR.APPLICABLE))
+    prop = [None] * n           # direction the documentation promises for a length parameter
     for t, lst in owners.items():
         ds = set()
         for vid, decided in lst:
@@ -446,8 +454,14 @@ def effective_dirs(c):
             dirs[t] = 'unknown'
         else:
             d = next(iter(ds))
-            dirs[t] = d if own[t] in (None, d) else 'unknown'
-    return dirs
+            if own[t] not in (None, d):
+                dirs[t] = 'unknown'
+            else:
+                prop[t] = d
+                # without an own direction annotation the other annotations of the length parameter are judged by the
+                # scanner before or after the propagation depending on parameter order: not a documented notion
+                dirs[t] = d if (own[t] == d or d == 'in') else 'unknown'
+    return dirs, prop
 
 
 # ------------------------------------------------------------------ reading the GIR
@@ -590,7 +604,8 @@ def check_expect(tok, a, vel, el, c, vid, dirs, where):
             return
         nm = array_length_name(a)
         j = target_index(c, nm) if nm is not None else None
-        if j is None or j == vid or dirs[j] == 'unknown' or dirs[vid] == 'unknown' or j == removed_index(c):
+        dirs, prop = dirs
+        if j is None or j == vid or prop[j] is None or dirs[vid] == 'unknown' or j == removed_index(c):
             return
         tel = value_element(el, c, j)
         if tel is None:
@@ -715,9 +730,9 @@ def check_case(case, ctx):
     expect_fatal = []
     maybe_fatal = False
     for ci, c in enumerate(cs):
-        dirs = effective_dirs(c)
+        dirs, prop = effective_dirs(c)
         cl = classify(c, dirs)
-        plans.append((ci, c, dirs, cl))
+        plans.append((ci, c, (dirs, prop), cl))
         for (vid, k), (verdict, expect, prov, row, site, facts) in cl.items():
             if verdict == AR.FATAL:
                 a = (vid == 'ret' and c['ret'] or c['params'][vid])['ann'][k]
@@ -828,7 +843,9 @@ def check_case(case, ctx):
 def _candidate(draw, names, is_ret):
     n = draw(st.sampled_from(['transfer', 'transfer', 'nullable', 'optional', 'allow-none', 'not', 'skip', 'array', 'array',
                               'element-type', 'type', 'scope', 'closure', 'destroy', 'attributes', 'dir']))
-    other = st.sampled_from(names) if names else st.just(MISSING)
+    other = st.sampled_from(names) if names else None
+    if other is None and n in ('closure', 'destroy'):
+        return ['closure']
     if n == 'transfer':
         return ['transfer', draw(st.sampled_from(['none', 'full', 'container', 'floating']))]
     if n == 'dir':
@@ -837,11 +854,11 @@ def _candidate(draw, names, is_ret):
         return ['not', draw(st.sampled_from(['nullable', 'optional']))]
     if n == 'array':
         opts = []
-        if draw(st.booleans()):
+        if other is not None and draw(st.booleans()):
             opts.append('length=%s' % draw(other))
-        if draw(st.integers(0, 2)) == 0:
+        if draw(st.integers(0, 2)) == 2:
             opts.append('fixed-size=%d' % draw(st.integers(0, 8)))
-        if draw(st.integers(0, 2)) == 0:
+        if draw(st.integers(0, 2)) == 1:
             opts.append(draw(st.sampled_from(['zero-terminated', 'zero-terminated=1', 'zero-terminated=0'])))
         return ['array'] + opts
     if n == 'element-type':
@@ -867,7 +884,7 @@ def _annotations(draw, c, vid):
     names = [p['name'] for j, p in enumerate(c['params']) if j != rem]
     v = c['ret'] if is_ret else c['params'][vid]
     anns = []
-    if not is_ret and draw(st.integers(0, 9)) < 4:
+    if not is_ret and draw(st.integers(0, 9)) > 5:
         anns.append(draw(st.sampled_from([['in'], ['out'], ['out'], ['out'], ['inout'], ['inout'], ['out', 'caller-allocates'],
                                           ['out', 'callee-allocates']])))
     n = draw(st.sampled_from([0, 1, 1, 2, 2, 3]))
@@ -895,7 +912,7 @@ def _annotations(draw, c, vid):
 
 
 @st.composite
-def _callable(draw, idx):
+def _callable(draw, idx, seq):
     kind = draw(st.sampled_from(CALLABLE_KINDS))
     c = {'kind': kind, 'idx': idx}
     if kind == 'method':
@@ -904,19 +921,19 @@ def _callable(draw, idx):
         c['sub'] = draw(st.sampled_from(['own', 'own', 'invoker']))
     pool = SIG_CAT_KINDS if kind == 'signal' else CAT_KINDS
     n = draw(st.integers(0, 5))
-    kinds = [draw(_kind(pool)) for _ in range(n)]
-    if kind != 'signal' and draw(st.integers(0, 2)) == 0:
+    kinds = [draw(_kind(pool, seq)) for _ in range(n)]
+    if kind != 'signal' and draw(st.integers(0, 3)) == 2:
         i = draw(st.integers(0, len(kinds)))
         kinds[i:i] = draw(st.sampled_from([['cb', 'gpointer'], ['cb', 'gpointer', 'GDestroyNotify'], ['gpointer', 'cb', 'GDestroyNotify'],
                                            ['GAsyncReadyCallback', 'gpointer'], ['int*', 'gsize'], ['strv', 'int'], ['rec**', 'gsize*'],
                                            ['cb', 'gpointer', 'gpointer']]))
         kinds = kinds[:6]
-    if kind != 'signal' and draw(st.integers(0, 5)) == 0:
+    if kind != 'signal' and draw(st.integers(0, 7)) == 5:
         kinds.append('GError**')
     params = []
     for j, k in enumerate(kinds):
         nm = 'p%d' % j
-        if k == 'gpointer' and draw(st.integers(0, 2)) == 0:
+        if k == 'gpointer' and draw(st.integers(0, 2)) == 1:
             nm = draw(st.sampled_from(['user_data', 'my_data%d' % j, 'data%d' % j]))
             if nm in [p['name'] for p in params]:
                 nm = 'p%d' % j
@@ -924,23 +941,25 @@ def _callable(draw, idx):
             nm = 'error'
         params.append({'name': nm, 'kind': k, 'ann': []})
     c['params'] = params
-    rkind = 'void' if draw(st.integers(0, 5)) == 0 else draw(_kind(SIG_CAT_KINDS if kind == 'signal' else RET_CAT_KINDS))
+    rkind = 'void' if draw(st.integers(0, 5)) == 3 else draw(_kind(SIG_CAT_KINDS if kind == 'signal' else RET_CAT_KINDS, seq))
     c['ret'] = {'kind': rkind, 'ann': []}
     for j in range(len(params)):
         draw(_annotations(c, j))
     draw(_annotations(c, 'ret'))
     # deliberate fatal shape, rarely
-    if draw(st.integers(0, 59)) == 0 and params:
+    if draw(st.integers(0, 39)) == 23 and params:
         j = draw(st.integers(0, len(params) - 1))
-        if not any(a[0] == 'array' for a in params[j]['ann']):
-            params[j]['ann'].append(['array', 'length=' + MISSING])
+        bad = draw(st.sampled_from([['array', 'length=' + MISSING], ['closure', MISSING], ['destroy', MISSING]]))
+        if not any(a[0] == bad[0] for a in params[j]['ann']):
+            params[j]['ann'].append(bad)
     return c
 
 
 @st.composite
 def api(draw):
     n = draw(st.integers(1, 6))
-    return {'callables': [draw(_callable(i)) for i in range(n)]}
+    seq = {'o': draw(st.integers(0, 1000)), 'step': draw(st.sampled_from(STEPS)), 'i': 0}
+    return {'callables': [draw(_callable(i, seq)) for i in range(n)]}
 
 
 # ------------------------------------------------------------------ exhaustive single-annotation product (thorough)
